@@ -10,3 +10,6 @@ pub uninterp spec fn io_error_kind(e: &std::io::Error) -> std::io::ErrorKind;
 pub assume_specification[ std::io::Error::kind ](e: &std::io::Error) -> (k: std::io::ErrorKind)
     ensures k == io_error_kind(e);
 
+// ErrorKind is a field-less enum with a derived PartialEq: `==` is equality of the variants
+pub assume_specification[ <std::io::ErrorKind as core::cmp::PartialEq>::eq ](a: &std::io::ErrorKind, b: &std::io::ErrorKind) -> (r: bool)
+    ensures r == (*a == *b);
